@@ -310,6 +310,17 @@ pub(crate) mod alloc {
             // Compute the challenge 'u'
             let u_challenge = transcript.challenge_scalar(b"u_challenge");
 
+            #[cfg(feature = "verif")]
+            crate::verif::record_verifier_challenges([
+                alpha,
+                beta,
+                gamma,
+                z_challenge,
+                v_challenge,
+                v_w_challenge,
+                u_challenge,
+            ]);
+
             // Compute zero polynomial evaluated at challenge `z`
             let z_h_eval = domain.evaluate_vanishing_polynomial(&z_challenge);
 
@@ -612,6 +623,17 @@ pub(crate) mod alloc {
 
             // Compute the challenge 'u'
             let u_challenge = transcript.challenge_scalar(b"u_challenge");
+
+            #[cfg(feature = "verif")]
+            crate::verif::record_verifier_challenges([
+                alpha,
+                beta,
+                gamma,
+                z_challenge,
+                v_challenge,
+                v_w_challenge,
+                u_challenge,
+            ]);
 
             // Compute zero polynomial evaluated at challenge `z`
             let z_h_eval = domain.evaluate_vanishing_polynomial(&z_challenge);
